@@ -92,6 +92,13 @@ def main():
     rng = ck.rng
     T = ck.thorough()
     cases, meta = [], {}
+    # (0) corpus: stored replays of earlier findings run first
+    import glob
+    for f in sorted(glob.glob(os.path.join(VERIF, "corpus", "C06", "*.txt"))):
+        ops = [l.strip() for l in open(f) if l.strip() and not l.startswith("#") and not l.startswith("CASE") and l.strip() != "RESET"]
+        cid = "c_" + os.path.basename(f)[:-4]
+        cases.append((cid, ops))
+        meta[cid] = ("corpus", None)
     # (a) random histories from empty and from loaded problems
     nrand = 900 if T else 70
     for i in range(nrand):
